@@ -1,6 +1,7 @@
 package hpipe
 
 import (
+	"strconv"
 	"context"
 	"errors"
 	"fmt"
@@ -252,6 +253,14 @@ func MkOption(name string, fromUpstream bool) dns.EDNS0 {
 			return &dns.EDNS0_LOCAL{Code: 65001, Data: []byte("upstream-local")}
 		}
 		return &dns.EDNS0_LOCAL{Code: 65001, Data: []byte("client-local")}
+	}
+	if len(name) > 1 && name[0] == 'o' {
+		if n, err := strconv.ParseUint(name[1:], 10, 16); err == nil {
+			if fromUpstream {
+				return &dns.EDNS0_LOCAL{Code: uint16(n), Data: []byte("upstream-local")}
+			}
+			return &dns.EDNS0_LOCAL{Code: uint16(n), Data: []byte("client-local")}
+		}
 	}
 	panic("unknown option " + name)
 }
